@@ -46,31 +46,32 @@ def degeneracy(G, ic, model):
     return "generic"
 
 
-def check_output(A, name, G, ic, tau, gamma, grid, full, out, cls, tag):
-    """C06 oracle for one call."""
+def check_output(A, name, G, ic, tau, gamma, grid, full, out, cls, tag, entry=None):
+    """C06 oracle for one call (`entry`: name used in finding keys, default the called function)."""
+    ent = entry or name
     inf = cat.info(name)
     N = G.order()
     tolN = 1e-6 * N
     try:
         t, S, I, R, vals, lay = cat.sir_columns(name, out, full)
     except Exception as e:
-        A.add(V("C06", name, cls, "layout", "%s: output does not have the documented structure: %r" % (tag, e)))
+        A.add(V("C06", ent, cls, "layout", "%s: output does not have the documented structure: %r" % (tag, e)))
         return
     want_len = len(lay) + 1
     if len(out) != want_len:
-        A.add(V("C06", name, cls, "layout", "%s returned %d values, documented: t + %r" % (tag, len(out), lay)))
+        A.add(V("C06", ent, cls, "layout", "%s returned %d values, documented: t + %r" % (tag, len(out), lay)))
         return
     tw = cat.times_expected(name, grid)
     if t.shape != tw.shape or not np.array_equal(t, tw):
-        A.add(V("C06", name, cls, "times", "%s: times %r are not %r" % (tag, t.tolist()[:6], tw.tolist()[:6])))
+        A.add(V("C06", ent, cls, "times", "%s: times %r are not %r" % (tag, t.tolist()[:6], tw.tolist()[:6])))
         return
     cols = [("S", S), ("I", I)] + ([("R", R)] if inf["model"] == "SIR" else [])
     for nm, c in cols:
         if c is None or c.shape != t.shape:
-            A.add(V("C06", name, cls, "layout", "%s: %s is missing or has shape %r" % (tag, nm, None if c is None else c.shape)))
+            A.add(V("C06", ent, cls, "layout", "%s: %s is missing or has shape %r" % (tag, nm, None if c is None else c.shape)))
             return
         if not np.all(np.isfinite(c)):
-            A.add(V("C06", name, cls, "nonfinite", "%s: %s contains nan/inf: %r" % (tag, nm, c.tolist()[:6])))
+            A.add(V("C06", ent, cls, "nonfinite", "%s: %s contains nan/inf: %r" % (tag, nm, c.tolist()[:6])))
             return
     # singular regime of the closures: the susceptible pool is (numerically) exhausted during the run, so
     # terms like [SI]([SS]-[SI])/[S] are evaluated at S ~ 0; classified separately so that a recorded
@@ -83,21 +84,21 @@ def check_output(A, name, G, ic, tau, gamma, grid, full, out, cls, tag):
     dev = float(np.max(np.abs(tot - N)))
     A.max["conservation_dev_over_N"] = max(A.max.get("conservation_dev_over_N", 0.0), dev / N)
     if dev > tolN:
-        A.add(V("C06", name, cls, "conservation", "%s: S+I(+R) deviates from N=%d by %.3g" % (tag, N, dev), (), dev, 0.0))
+        A.add(V("C06", ent, cls, "conservation", "%s: S+I(+R) deviates from N=%d by %.3g" % (tag, N, dev), (), dev, 0.0))
     for nm, c in cols:
         if np.min(c) < -100 * tolN or np.max(c) > N + 100 * tolN:
-            A.add(V("C06", name, cls_dyn, "range", "%s: %s leaves [0,N]: min %.6g max %.6g" % (tag, nm, np.min(c), np.max(c))))
+            A.add(V("C06", ent, cls_dyn, "range", "%s: %s leaves [0,N]: min %.6g max %.6g" % (tag, nm, np.min(c), np.max(c))))
     if inf["model"] == "SIR":
         if np.max(np.diff(S)) > 1e-5 * N if len(S) > 1 else False:
-            A.add(V("C06", name, cls_dyn, "S_increases", "%s: S increases by %.3g" % (tag, np.max(np.diff(S)))))
+            A.add(V("C06", ent, cls_dyn, "S_increases", "%s: S increases by %.3g" % (tag, np.max(np.diff(S)))))
         if np.min(np.diff(R)) < -1e-5 * N if len(R) > 1 else False:
-            A.add(V("C06", name, cls_dyn, "R_decreases", "%s: R decreases by %.3g" % (tag, -np.min(np.diff(R)))))
+            A.add(V("C06", ent, cls_dyn, "R_decreases", "%s: R decreases by %.3g" % (tag, -np.min(np.diff(R)))))
     # initial state
     E = cat.expected_initial(G, ic, inf["model"])
     tol0 = 1e-9 * max(1.0, N)
     for nm, c in cols:
         if abs(c[0] - E[nm]) > tol0:
-            A.add(V("C06", name, cls, "initial_" + nm, "%s: %s(tmin)=%.10g, request means %.10g" % (tag, nm, c[0], E[nm]), (), float(c[0]), E[nm]))
+            A.add(V("C06", ent, cls, "initial_" + nm, "%s: %s(tmin)=%.10g, request means %.10g" % (tag, nm, c[0], E[nm]), (), float(c[0]), E[nm]))
     if full and inf["hasfull"]:
         nodes = list(G.nodes())
         Ks = E["Ks"]
@@ -134,12 +135,122 @@ def check_output(A, name, G, ic, tau, gamma, grid, full, out, cls, tag):
                     continue
                 got = np.asarray(got, dtype=float); want = np.asarray(want, dtype=float)
                 if got.shape != want.shape or np.max(np.abs(got - want)) > tol0:
-                    A.add(V("C06", name, cls, "initial_aux_" + key, "%s: full-data series %r at tmin is %s, the requested state gives %s" % (tag, key, np.round(got, 6).tolist(), np.round(want, 6).tolist())))
+                    A.add(V("C06", ent, cls, "initial_aux_" + key, "%s: full-data series %r at tmin is %s, the requested state gives %s" % (tag, key, np.round(got, 6).tolist(), np.round(want, 6).tolist())))
             except Exception as e:
-                A.add(V("C06", name, cls, "layout_" + key, "%s: full-data series %r has unexpected structure: %r" % (tag, key, e)))
+                A.add(V("C06", ent, cls, "layout_" + key, "%s: full-data series %r has unexpected structure: %r" % (tag, key, e)))
+
+
+def base_of(name):
+    return name[:-len("_from_graph")] if name.endswith("_from_graph") else None
+
+
+def run_direct(spec, props=("C06",)):
+    """The direct model functions behind the *_from_graph wrappers, called the way a user of the direct
+    interface calls them: with the state arrays (taken from the wrapper's own delegation, which the main
+    part of C06 checks against the brute-force counts) and with the documented DEFAULTS for every optional
+    argument left out."""
+    import inspect
+    EoN, sim = import_eon()
+    warnings.filterwarnings("ignore")
+    np.seterr(all="ignore")
+    A = Acc()
+    ana = EoN.analytic
+    n = spec["n"]
+    G = gr.mk(n, [tuple(e) for e in spec["edges"]])
+    ic = ic_of(spec)
+    cls0 = ic_class(ic)
+    for name in spec["names"]:
+        base = base_of(name)
+        if base is None or not hasattr(ana, base) or not cat.supports(name, ic):
+            continue
+        inf = cat.info(name)
+        dg = degeneracy(G, ic, inf["model"])
+        if dg != "generic":
+            continue          # (the singular requests are classified and reported under the wrappers)
+        cls = "direct:" + cls0
+        orig = getattr(ana, base)
+        sig = inspect.signature(orig)
+        for (tau, gamma) in spec["rates"]:
+            rec = []
+
+            def recorder(*a, **k):
+                rec.append((a, k))
+                return orig(*a, **k)
+            g0 = (0, 5, 0) if inf["discrete"] else (0, 5, 11)
+            setattr(ana, base, recorder)
+            pub = getattr(EoN, base, None)
+            try:
+                out_w = cat.call(EoN, name, G, ic, tau, gamma, g0, inf["hasfull"])
+            except Exception as e:
+                continue      # reported by the main part
+            finally:
+                setattr(ana, base, orig)
+            if len(rec) != 1:
+                A.count["no_delegation"] = A.count.get("no_delegation", 0) + 1
+                continue
+            ba = sig.bind(*rec[0][0], **rec[0][1]); params = dict(ba.arguments)
+            A.evals += 1
+            A.states.add((base, tau, gamma)); A.nontrivial.add((base, tau, gamma))
+            tagb = "%s(<arrays of %s on n=%d edges=%r>, tau=%g, gamma=%g" % (base, ic, n, spec["edges"], tau, gamma)
+            variants = []
+            # (i) tmin and tcount left at their defaults, short horizon; return_full_data left at its default
+            p1 = {k: v for k, v in params.items() if k not in ("tmin", "tcount", "return_full_data")}
+            if "tmax" in sig.parameters:
+                p1["tmax"] = 5
+            variants.append(("defaults tmin/tcount/return_full_data, tmax=5", p1,
+                             (sig.parameters["tmin"].default if "tmin" in sig.parameters else 0, 5,
+                              sig.parameters["tcount"].default if "tcount" in sig.parameters else 0), False, True))
+            # (ii) every optional argument at its default: only the grid and the first row
+            p2 = {k: v for k, v in params.items() if k not in ("tmin", "tmax", "tcount", "return_full_data")}
+            if spec.get("alldefaults") and (tau, gamma) == tuple(spec["rates"][0]):
+                variants.append(("all optional arguments at their defaults", p2, (0, 100, 1001), False, False))
+            # (iii) shifted grid, full data as keyword
+            p3 = dict(params)
+            if "tmin" in sig.parameters:
+                p3["tmin"] = 2 if inf["discrete"] else 1.5
+            p3["tmax"] = 6 if inf["discrete"] else 4
+            if "tcount" in sig.parameters:
+                p3["tcount"] = 6
+            variants.append(("shifted grid", p3, (p3.get("tmin", 0), p3["tmax"], 6), bool(params.get("return_full_data", False)), True))
+            for what, pp, grid, full, deep in variants:
+                tag = "%s; %s)" % (tagb, what)
+                try:
+                    # required arguments positionally (as documented), optional ones by keyword
+                    pos = [pp[k] for k, prm in sig.parameters.items() if prm.default is inspect._empty]
+                    kws = {k: v for k, v in pp.items() if sig.parameters[k].default is not inspect._empty}
+                    out = orig(*pos, **kws)
+                except Exception as e:
+                    A.add(V("C06", base, cls, "exception[%s]" % type(e).__name__, "%s raised %s: %s" % (tag, type(e).__name__, str(e)[:150])))
+                    continue
+                A.execs += 1
+                if deep:
+                    check_output(A, name, G, ic, tau, gamma, grid, full, out, cls, tag, entry=base)
+                else:
+                    t = np.asarray(out[0]); tw = cat.times_expected(name, grid)
+                    if t.shape != tw.shape or not np.array_equal(t, tw):
+                        A.add(V("C06", base, cls, "times", "%s: times %r... (%d values) are not the documented default grid %r..." % (tag, t.tolist()[:4], len(t), tw.tolist()[:4])))
+                    else:
+                        r0 = [float(np.asarray(c).sum(axis=0)[0]) if np.asarray(c).ndim > 1 else float(np.asarray(c)[0]) for c in out[1:]]
+                        tcols = cat.sir_columns(name, out_w, inf["hasfull"])
+                        w0 = [float(c[0]) for c in tcols[1:4] if c is not None]
+                        try:
+                            d0 = [float(c[0]) for c in cat.sir_columns(name, out, False)[1:4] if c is not None]
+                        except Exception as e:
+                            A.add(V("C06", base, cls, "layout", "%s: output does not have the documented structure: %r" % (tag, e))); continue
+                        if any(abs(a - b) > 1e-9 * max(1, n) for a, b in zip(d0, w0)) or len(d0) != len(w0):
+                            A.add(V("C06", base, cls, "initial", "%s: first row %r, the wrapper with the same arrays reports %r" % (tag, d0, w0)))
+                try:
+                    A.outcomes.add(hsh(np.round(np.asarray(out[1], dtype=float), 6).tolist()[:20]))
+                except Exception:
+                    pass
+    A.trans = set(A.states)
+    A.sample = {"spec": {k: v for k, v in spec.items() if k != "names"}, "direct": True}
+    return A.result(props)
 
 
 def run_spec(spec, props=("C06",)):
+    if spec.get("direct"):
+        return run_direct(spec, props)
     EoN, sim = import_eon()
     warnings.filterwarnings("ignore")
     np.seterr(all="ignore")
@@ -221,4 +332,6 @@ def specs(tier):
                     if k % 3:
                         continue
                     out.append(dict(n=n, edges=es, ic=ic, names=names, rates=RATES[:1], grids=GRIDS[:1], dgrids=DGRIDS[:1], container=cont))
+            if n <= 4 or k < 6:
+                out.append(dict(n=n, edges=es, ic=ic, names=names, rates=RATES[:2] + RATES[3:4], direct=True, alldefaults=(k in (1, 4))))
     return out
